@@ -903,6 +903,17 @@ func (a *Association) initWithOutOfBandTokens(localInit *chunkInit, remoteInit *
 	a.lock.Lock()
 	defer a.lock.Unlock()
 
+	// What this side accepts is what its own token told the peer, exactly as
+	// for interleaving: the peer sends zero checksums if and only if the local
+	// token carries the parameter. (Set before the read loop starts: it reads
+	// the flag without the lock.)
+	a.recvZeroChecksum = false
+	for _, param := range localInit.params {
+		if zeroChecksum, ok := param.(*paramZeroChecksumAcceptable); ok {
+			a.recvZeroChecksum = zeroChecksum.edmid == dtlsErrorDetectionMethod
+		}
+	}
+
 	go a.readLoop()
 	go a.writeLoop()
 
